@@ -119,6 +119,9 @@ def gen(ctx):
     for i, c in enumerate(cases):
         if i % 3 == 2:
             c['heldopen'] = True
+        # a call with ONE subarray is made through append() half of the time (it has its own entry point)
+        if len(c['ops'][0]['items']) == 1 and i % 2 == 0:
+            c['ops'][0] = dict(c['ops'][0], op='append')
     return cases
 
 
